@@ -1328,6 +1328,10 @@ class FortranFile:
                 do_skip = True
             if do_skip:
                 continue
+            # Directives are not Fortran statements: the `&&` of an `#if` must
+            # not be taken for a continuation that swallows the next line
+            if self.preproc and FRegex.PP_ANY.match(line):
+                continue
             # Get full line, seek forward for code lines
             # @note line_no-1 refers to the array index for the current line
             if get_full:
